@@ -337,6 +337,11 @@ var c03Adversarial = []string{
 	`{"parser_settings":{"version":"omni.2.1","file_format_type":"json"},"transform_declarations":{"FINAL_OUTPUT":{"object":{"a":{"template":"t"}}},"t":{"xpath_dynamic":{"custom_func":{"name":"concat","args":[null,{"const":"x"}]}}}}}`,
 	`{"parser_settings":{"version":"omni.2.1","file_format_type":"json"},"transform_declarations":{"FINAL_OUTPUT":{"object":{"a":{"template":"t"},"b":{"xpath_dynamic":{"array":[null]}}}},"t":{"xpath_dynamic":{"object":{"k":null}}}}}`,
 	`{"parser_settings":{"version":"omni.2.1","file_format_type":"json"},"transform_declarations":{"FINAL_OUTPUT":{"xpath_dynamic":{"custom_func":{"name":"concat","args":[{"xpath_dynamic":{"custom_func":{"name":"upper","args":[null]}}}]}},"object":{}}}}`,
+	// delimiters the csv reader itself rejects (they pass schema validation), with rows to skip
+	`{"parser_settings":{"version":"omni.2.1","file_format_type":"csv"},"file_declaration":{"delimiter":"\"","data_row_index":3,"columns":[{"name":"a"}]},"transform_declarations":{"FINAL_OUTPUT":{"object":{"a":{"xpath":"a"}}}}}`,
+	`{"parser_settings":{"version":"omni.2.1","file_format_type":"csv"},"file_declaration":{"delimiter":"\u0000","header_row_index":2,"data_row_index":4,"columns":[{"name":"a"}]},"transform_declarations":{"FINAL_OUTPUT":{"object":{"a":{"xpath":"a"}}}}}`,
+	`{"parser_settings":{"version":"omni.2.1","file_format_type":"csv"},"file_declaration":{"delimiter":"\n","data_row_index":2,"columns":[{"name":"a"}]},"transform_declarations":{"FINAL_OUTPUT":{"object":{"a":{"xpath":"a"}}}}}`,
+	`{"parser_settings":{"version":"omni.2.1","file_format_type":"csv2"},"file_declaration":{"delimiter":"\"","records":[{"columns":[{"name":"a","index":1}]}]},"transform_declarations":{"FINAL_OUTPUT":{"object":{"a":{"xpath":"a"}}}}}`,
 	// huge numbers
 	`{"parser_settings":{"version":"omni.2.1","file_format_type":"fixedlength2"},"file_declaration":{"envelopes":[{"rows":9223372036854775807,"columns":[{"name":"a","start_pos":9223372036854775807,"length":9223372036854775807}]}]},"transform_declarations":{"FINAL_OUTPUT":{"object":{"a":{"xpath":"a"}}}}}`,
 	`{"parser_settings":{"version":"omni.2.1","file_format_type":"fixedlength2"},"file_declaration":{"envelopes":[{"columns":[{"name":"a","start_pos":2,"length":9223372036854775807,"line_index":9223372036854775807}]}]},"transform_declarations":{"FINAL_OUTPUT":{"object":{"a":{"xpath":"a"}}}}}`,
